@@ -1,10 +1,7 @@
 -- constants of ai/minimax.go the search model and the C04/C05/C16 theorems depend on
+-- (MaxEval, MinEval, WinThreshold, WinBase, ForcedWin are in FactsEval.lean)
+import TakVerif.Generated.FactsEval
 namespace Facts
-def maxEval : Int := 1073741824  -- go: ai/minimax.go const MaxEval
-def minEval : Int := -1073741824  -- go: ai/minimax.go const MinEval
-def winThreshold : Int := 536870912  -- go: ai/minimax.go const WinThreshold
-def winBase : Int := 805306368  -- go: ai/minimax.go const WinBase
-def forcedWin : Int := 1048576  -- go: ai/minimax.go const ForcedWin
 def defaultTableMem : Nat := 104857600  -- go: ai/minimax.go const defaultTableMem
 def maxDedup : Int := 4  -- go: ai/minimax.go const maxDedup
 def maxDepth : Nat := 15  -- go: ai/minimax.go const maxDepth
